@@ -520,6 +520,8 @@ package txmgr
 //@   props C09 C19
 //@   requires rec != nil
 //@   modifies &rec.Received, &rec.MsgTx
+//@   ensures len(v) < 8 ==> err != nil
+//@   ensures err == nil ==> txInsOK(rec)
 
 // conflict chain removal: the record passed in must be keyed in the pending bucket by ITS OWN hash (the recursion
 // re-reads spenders from the bucket and must restore that link), and is gone afterwards.  Termination of the
@@ -529,9 +531,12 @@ package txmgr
 //@   requires s != nil && s.bucketMeta != nil && s.utxoStore != nil && s.utxoStore.bucketMeta != nil && tx != nil && rec != nil && txInsOK(rec)
 //@   requires sameRef(s.bucketMeta, s.utxoStore.bucketMeta)
 //@   requires bhasI(B(tx, s.bucketMeta.nsUnmined), rec.Hash)
-//@   requires miWFI(B(tx, s.bucketMeta.nsUnminedInputs))
+//@   requires miWFI(B(tx, s.bucketMeta.nsUnminedInputs)) && pendingBktsDistinct(tx, s)
 //@   modifies bmapI(B(tx, s.bucketMeta.nsUnmined)), bmapI(B(tx, s.bucketMeta.nsUnminedInputs)), bmapI(B(tx, s.bucketMeta.nsUnminedCredits)), bmapI(B(tx, s.bucketMeta.nsUnminedGameHistory))
 //@   ensures err == nil ==> !bhasI(B(tx, s.bucketMeta.nsUnmined), rec.Hash)
 //@   ensures miWFI(B(tx, s.bucketMeta.nsUnminedInputs))
 //@   loop#1 invariant miWFI(B(tx, s.bucketMeta.nsUnminedInputs))
 //@   loop#2 invariant miWFI(B(tx, s.bucketMeta.nsUnminedInputs))
+
+// the four pending-transaction buckets are four different buckets (distinct names under one store bucket)
+//@ define pendingBktsDistinct(tx, s) = (distinctBkts(tx, s.bucketMeta.nsUnmined, s.bucketMeta.nsUnminedInputs) && distinctBkts(tx, s.bucketMeta.nsUnmined, s.bucketMeta.nsUnminedCredits) && distinctBkts(tx, s.bucketMeta.nsUnmined, s.bucketMeta.nsUnminedGameHistory) && distinctBkts(tx, s.bucketMeta.nsUnminedInputs, s.bucketMeta.nsUnminedCredits) && distinctBkts(tx, s.bucketMeta.nsUnminedInputs, s.bucketMeta.nsUnminedGameHistory) && distinctBkts(tx, s.bucketMeta.nsUnminedCredits, s.bucketMeta.nsUnminedGameHistory))
